@@ -61,6 +61,15 @@ func init() {
 		Level:       "held on every executed case: complete sweep of all sequences up to length 4 (thorough 5) over 23 operations (incl. clock advances to 1 ns before/after the earliest pending deadline) on 2 keys for all six default-expiry x cleanup configurations, plus seeded random sequences up to length 25 on 3 keys; every observable (Get, IsExpired, Count, List) compared after every step with a map-with-deadlines model at the same virtual instant, cleanup ticks included",
 		Technique:   "reference-model trace monitor in virtual time (testing/synctest): observations at exact instants around deadlines and cleanup ticks",
 		Assumptions: []string{"the fake clock of testing/synctest is the time source the library reads (time.Now/Ticker)", "hook: cache.VerifStopCleanup (tag verif) ends the cleanup goroutine at the end of each case", "not asserted: whether Count/List include expired-but-unpurged entries, Delete's result on such an entry, behaviour exactly at a deadline"}})
+	reg(&propCfg{ID: "C17", Pkg: "./props/c17", Variants: func(tier string) []variant {
+		if tier == "thorough" {
+			return []variant{{Name: "race", Race: true, Shards: 4, Procs: []int{16, 4, 2, 1}}}
+		}
+		return []variant{{Name: "race", Race: true, Shards: 1}}
+	},
+		Level:       "held on every executed case: callers {1,2,4,8,16} x keys {1,2,3} x latency {0,10ms,1s} x outcome {value,error,error-then-value} x expiry {never,25ms} x 4 start patterns x 12 (thorough 120, GOMAXPROCS varied) repetitions inside testing/synctest bubbles under the race detector, plus every sequential call/advance pattern up to length 5 (6) against an exact model; in-flight counter and virtual-time execution log inside the supplied function",
+		Technique:   "in-callback monitor (in-flight counter + execution log) and caller-side log in virtual time (testing/synctest), race detector on",
+		Assumptions: []string{"schedules are those the Go runtime produces inside the bubble (repetitions, GOMAXPROCS varied in the thorough tier); not exhaustive", "not asserted: that a caller which began before the value was cached does not recompute (lookup-then-singleflight window)", "cache.Items are minted through a separate cache because Item has no exported constructor"}})
 	reg(&propCfg{ID: "C04", Pkg: "./props/c04", Variants: simple(false),
 		Technique:   "reference-model trace monitor (map model) over systematic small-scope sweep + seeded random sequences",
 		Assumptions: []string{"the map model and the generators are trusted", "single goroutine; concurrency is C01/C02"}})
